@@ -11,7 +11,7 @@ reg("C35", [mon("hydro", "hv_net_emb")],
          "per program, >= 10^4 / 10^5 values per payload type: clusters of 1-4 members with non-contiguous raw ids up to u32::MAX, 1-4 data rounds, sends to ids that "
          "are no member, broadcast membership histories with late joiners / leavers, random transport delays and interleavings "
          "with per-link FIFO) are executed on the real generated Dfirs. Checked: every value arrives equal (edge values such as "
-         "i64::MIN/MAX, empty and 66k strings, None, 30-deep nesting included), exactly once, in per-sender order, only at the "
+         "i64::MIN/MAX, empty and 70k-char strings, None, 30-deep nesting included), exactly once, in per-sender order, only at the "
          "addressed member(s), keyed by the true sender id; wire destination tags equal the addressed ids (an unknown id is never "
          "redirected to a member); CLUSTER_SELF_ID equals the instance id; 10^4 (thorough 10^5) raw ids round-trip through "
          "from_raw_id/get_raw_id/into_tagless/from_tagless and both serde forms.",
